@@ -135,7 +135,7 @@ theorem Blank.inv1 {s : Streams} (h : Blank s) : Inv1 s :=
    by rw [h.numRecv]; exact Nat.zero_le _, by rw [h.numReset]; exact Nat.zero_le _,
    by rw [h.numRemote]; exact Nat.zero_le _, by intro m _; rw [h.numErr]; exact Nat.zero_le _⟩
 
-theorem InitS.from_blank {s : Streams} (h : InitS s) : ∃ s0, Blank s0 ∧ EvB ρ s0 s := by
+theorem InitS.from_blank {s : Streams} (h : InitS s) : ∃ s0, Blank s0 ∧ Ev s0 s := by
   cases h with
   | client g =>
     unfold Conn.init
